@@ -43,7 +43,7 @@ Proof. exact lzx_len_extents. Qed.
 Print Assumptions C02_length_array_extents.
 
 (* lifetimes, SZDD/LZSS, every host: [bad] is raised by any use of a closed handle and by any free/close of something not live *)
-Theorem C02_szdd_no_lifetime_error : forall (o : oracle) fuel,
-  bad (snd (run o mon0 (script_decompress fuel))) = false /\ bad (snd (run o mon0 (script_open_extract fuel))) = false.
-Proof. intros o fuel. split; [apply (szdd_script_decompress_clean o fuel)|apply (szdd_script_open_extract_clean o fuel)]. Qed.
+Theorem C02_szdd_no_lifetime_error : forall (o : oracle) junk fuel,
+  bad (snd (run o mon0 (script_decompress junk fuel))) = false /\ bad (snd (run o mon0 (script_open_extract junk fuel))) = false.
+Proof. intros o junk fuel. split; [apply (szdd_script_decompress_clean o junk fuel)|apply (szdd_script_open_extract_clean o junk fuel)]. Qed.
 Print Assumptions C02_szdd_no_lifetime_error.
